@@ -436,7 +436,8 @@ def c09_4(ctx):
                          witness="dt_bump(saturday, '0b') must be the following Monday")
     # residue
     ctx.count(1)
-    res = [s for s in ast.walk(fn.node) if isinstance(s, ast.If) and N(s.test) == 'len(bump)']
+    # bump is a str here (is_str branch; lower / dict lookup of str / slices): `if bump`, `if len(bump)` and `len(bump) > 0` say the same
+    res = [s for s in ast.walk(fn.node) if isinstance(s, ast.If) and N(s.test) in ('len(bump)', 'bump', NS('len(bump) > 0'), NS('len(bump) != 0'), NS("bump != ''"))]
     if not res or not any(isinstance(r, ast.Raise) and 'ValueError' in U(r) for r in ast.walk(res[0])):
         ctx.fail(fn, fn.node, 'a tenor with unparsable residue no longer raises ValueError')
     # named tenors
